@@ -510,6 +510,17 @@ class Subject:
         ev = []
         t = None
         for n in factors:
+            if n < 0:
+                # perturbation between two observed scalings: a member is scaled directly (factor -(n+1)/10^6); the
+                # next scaling of the whole transform must still depend on its own factor only
+                if t is not None:
+                    m = t.transforms[0] if hasattr(t, "transforms") and len(t.transforms) else getattr(t, "transform", None)
+                    if m is not None and hasattr(m, "scale_strength"):
+                        try:
+                            guarded(m.scale_strength, (-n - 1) / FP)
+                        except Refusal:
+                            pass
+                continue
             f = n / FP
             try:
                 if t is None:
@@ -1173,6 +1184,10 @@ def run(prop, tier, seed):
             r.shuffle(g)
             seqs += g[:10 if quick else 30]
             seqs += [random_sequence(r, r.randint(3, 6)) for _ in range(5 if quick else 30)]
+            # the same factor again after a member was rescaled on its own in between (no caching of "last factor")
+            for a_, b_ in ((FP // 2, FP), (FP, 0), (0, FP // 4), (FP // 4, FP // 4)):
+                seqs.append([a_, -(b_ + 1), a_])
+                seqs.append([b_, a_, -(b_ + 1), a_, a_])
         jobs.append((ei, e, [list(q) for q in seqs]))
     t_rec = time.time()
     rec = record_scaling(jobs, rec_procs)
